@@ -333,7 +333,7 @@ package goatlang
 // assign: untyped constants and nil take the declared type (declarations, assignments,
 // parameters, results, fields, container elements all go through it).
 //@ func (Value).assign
-//@   property C04
+//@   property C04 C14 C12
 //@   intmode bv
 //@   pure
 //@   nopanic
@@ -784,7 +784,7 @@ package goatlang
 //@   ensures#next stays(v)
 //@
 //@ func (*VM).exec case codeNegate
-//@   property C07 C04
+//@   property C07 C04 C14
 //@   reveal (Value).opMul newUntypedInt
 //@   axioms MULNEG_8 MULNEG_32 MULNEG_64
 //@   requires need(v, 1) && valid(top(v, 0))
@@ -1175,7 +1175,7 @@ package goatlang
 //@   ensures#frame keeps(v, len(v.stack))
 //@   ensures#next stays(v)
 //@ func (*VM).exec case codeFastGetInt
-//@   property C07 C02 C10
+//@   property C07 C02 C10 C11
 //@   requires localOK(v, ins(v).A)
 //@   -- the fused form reads through Value.Get like GET does (nil maps, bounds, key conversion)
 //@   ensures#viaGet @C10 @C02 calls("(Value).Get") == 1
@@ -1183,7 +1183,7 @@ package goatlang
 //@   ensures#frame keeps(v, old(len(v.stack)))
 //@   ensures#next stays(v)
 //@ func (*VM).exec case codeFastSetInt
-//@   property C07 C02 C10
+//@   property C07 C02 C10 C11
 //@   requires need(v, 1) && localOK(v, ins(v).A)
 //@   ensures#viaSet @C10 @C02 calls("(Value).Set") == 1
 //@   ensures#delta len(v.stack) == old(len(v.stack)) - 1
@@ -1834,11 +1834,11 @@ package goatlang
 
 // ---- map iteration (C10): the iterator closure over the snapshot r of keys ----
 //@ func (*numericMap).Range
-//@   property C10
+//@   property C10 C06
 //@   requires m != nil
 //@   nopanic
 //@ func (*numericMap).Range closure 0
-//@   property C10
+//@   property C10 C06
 //@   captures#fresh n == 0 && r == m.keys
 //@   requires m != nil && m.data != nil && 0 <= n && n <= len(r)
 //@   modifies B$Int
@@ -1851,11 +1851,11 @@ package goatlang
 //@   invariant forall j int :: old(n) <= j && j < n ==> !haskey(m.data, r[j])
 //@
 //@ func (*stringMap).Range
-//@   property C10
+//@   property C10 C06
 //@   requires m != nil
 //@   nopanic
 //@ func (*stringMap).Range closure 0
-//@   property C10
+//@   property C10 C06
 //@   captures#fresh n == 0 && r == m.keys
 //@   requires m != nil && m.data != nil && 0 <= n && n <= len(r)
 //@   modifies B$Int
@@ -2265,7 +2265,7 @@ package goatlang
 //@   property C14
 //@   trusted
 //@ func (*sliceT).SafeStr
-//@   property C14
+//@   property C14 C03
 //@   requires s != nil
 //@   allocates elems(string)
 //@   ensures#full result != "[...]"
@@ -2273,14 +2273,14 @@ package goatlang
 //@ func (*sliceT).SafeStr loop 0
 //@   invariant s != nil && (cap(p) == 0 || isfresh(arr(p)))
 //@ func (*stringMap).SafeStr
-//@   property C14
+//@   property C14 C03
 //@   requires m != nil && m.data != nil
 //@   allocates elems(string)
 //@   callsite#bounded (Value).safeStr: arg_v.t.isSafeStr()
 //@ func (*stringMap).SafeStr loop 0
 //@   invariant m != nil && (cap(p) == 0 || isfresh(arr(p)))
 //@ func (*numericMap).SafeStr
-//@   property C14
+//@   property C14 C03
 //@   requires m != nil && m.data != nil
 //@   allocates elems(string)
 //@   callsite#bounded (Value).safeStr: arg_v.t.isSafeStr()
@@ -2291,7 +2291,7 @@ package goatlang
 //@   -- integer keys without exponent), once per rendered element
 //@   invariant#keys calls("(Value).String") == calls("(Value).safeStr")
 //@ func (*structT).SafeStr
-//@   property C14
+//@   property C14 C03
 //@   requires s != nil && s.Lookup != nil && rh(s.Fields)
 //@   allocates elems(string)
 //@   callsite#bounded (Value).safeStr: arg_v.t.isSafeStr()
@@ -2391,7 +2391,7 @@ package goatlang
 //@   def exists j int :: 0 <= j && j < len(m.pairs) && m.pairs[j].distance != 0 && m.pairs[j].key == k && m.pairs[j].value == x
 //@
 //@ func (*intMap).Get
-//@   property C12 C03 C14
+//@   property C12 C03 C14 C16
 //@   axioms POW2
 //@   requires m != nil && rh(*m)
 //@   nopanic
@@ -2927,13 +2927,16 @@ package goatlang
 //@   modifies allbut(H$VM)
 //@   nopanic
 //@   ensures stackKept()
+//@ -- every form, whatever its arity: the argc arguments are gone and the native's result(s) are on
+//@ -- top afterwards (the form without an args parameter drops them unseen)
 //@ func NewFunc closure 0
 //@   property C19
-//@   requires vm != nil && stackArr(arr(vm.stack))
+//@   captures#argc argc >= 0
+//@   requires vm != nil && len(vm.stack) >= argc && stackArr(arr(vm.stack))
 //@   modifies *
 //@   nopanic
-//@   ensures#delta len(vm.stack) == old(len(vm.stack)) + 1
-//@   ensures#below forall j int :: 0 <= j && j < old(len(vm.stack)) ==> vm.stack[j] == old(vm.stack[j])
+//@   ensures#delta len(vm.stack) == old(len(vm.stack)) - argc + 1
+//@   ensures#below forall j int :: 0 <= j && j < old(len(vm.stack)) - argc ==> vm.stack[j] == old(vm.stack[j])
 //@ func NewFunc closure 1
 //@   property C19
 //@   captures#argc argc >= 0
